@@ -1,5 +1,6 @@
 //! verif-harness: drives the real rs-matter code for the model-based checks in /verif.
 mod c04;
+mod c12;
 mod sim;
 mod util;
 
@@ -13,6 +14,7 @@ fn main() {
         .stack_size(1 << 30)
         .spawn(move || match cmdc.as_str() {
             "c04" => c04::run(&a[2..]),
+            "c12" => c12::run(&a[2..]),
             _ => {
                 eprintln!("usage: vh <c04|...> [--behaviours f] [--out f]");
                 2
